@@ -64,7 +64,9 @@ SyncSid(hs) ==
 (* SioServer; the partial is the string below and is decoded by search.    *)
 Tag(host, room, ns, id) == "ret|" \o host \o "|" \o room \o "|" \o ns \o "|" \o ToString(id)
 SidNames == {S!SidName(i) : i \in 1..MaxSid}
-HostNames == Hosts \cup {"w", "hx"}      \* "hx": a host outside the modelled cluster (forged / foreign messages)
+HostNames == Hosts \cup {"w", "hx", "nobody", "absent"}
+    \* "hx": a host outside the modelled cluster (forged / foreign messages);
+    \* "nobody" / "absent": host_id None / no host_id at all
 Partials == [host : HostNames, room : SidNames, ns : NsAll, id : 1..(MaxAck + 1)]
 TagOfP(p) == Tag(p.host, p.room, p.ns, p.id)
 IsPartial(tag) == \E p \in Partials : TagOfP(p) = tag
